@@ -20,6 +20,7 @@ def atomToJ : Atom → J
   | .int i => .int i
   | .str n => .arr [.str "s", .int n]
   | .opaque i => .arr [.str "q", .int i]
+  | .tup ids => .arr [.str "t", .arr (ids.map fun (i : Nat) => J.int (Int.ofNat i))]
 
 def kindToJ : Kind → J
   | .dict => .str "d"
@@ -31,6 +32,7 @@ partial def treeToJ : Tree → J
   | .node m its =>
     .obj [("id", .int m.id), ("kind", match m.kind, m.ref with
             | .obj c, some tg => J.arr [.str "o", .int c, .int tg]
+            | .list, _ => if m.typed then J.str "tl" else J.str "l"
             | k, _ => kindToJ k),
           ("parent", match m.parent with | none => .null | some p => .int p),
           ("path", .arr (m.path.map keyToJ)),
@@ -64,7 +66,8 @@ def pickNode (nodes : List Tree) (n : Nat) : Option Tree :=
 def pickOfKind (nodes : List Tree) (fam : String) (n : Nat) : Option Tree :=
   let cands := nodes.filter fun t => match t.meta?, fam with
     | some m, "d" => m.kind == .dict
-    | some m, "l" => m.kind == .list
+    | some m, "l" => m.kind == .list && !m.typed
+    | some m, "tl" => m.kind == .list && m.typed
     | some m, "o" => m.kind == .obj 0 || m.kind == .obj 1
     | some _, _ => true
     | none, _ => false
@@ -102,12 +105,36 @@ def flagsOf (j : J) : Bool × Bool × Bool :=
 /-- state threaded through the resolution of the values of one operation: ids already offered. -/
 abbrev Used := List Nat
 
+/-- values without offered nodes (used inside the construction of a typed list). -/
+partial def plainOnly : VE → VE
+  | .atom a => .atom a
+  | .node .dict _ _ _ items => .node .dict false true false (items.map fun kv => (kv.1, plainOnly kv.2))
+  | .node .list _ _ _ items => .node .list false true false (items.map fun kv => (kv.1, plainOnly kv.2))
+  | _ => .atom .none
+
+/-- what the glue offers to a typed list: an instance of C0 (new, with plain field values, or
+existing) — anything else becomes the rejected value `1`. -/
+def forTyped (f : Forest) : VE → VE
+  | .node (.obj 0) s a p its => .node (.obj 0) s a p (its.map fun kv => (kv.1, plainOnly kv.2))
+  | .ref id => if (f.metaOf? id).any (fun m => m.kind == .obj 0) then .ref id else .atom (.int 1)
+  | _ => .atom (.int 1)
+
 partial def resolveVE (cx : Ctx) (used : Used) : J → VE × Used
   | .null => (.atom .none, used)
   | .str "M" => (.atom .missing, used)
   | .int i => (.atom (.int i), used)
   | .arr [.str "s", .int n] => (.atom (.str n.natAbs), used)
   | .arr [.str "q"] => (.fresh, used)
+  | .arr [.str "T", .int n] => (.freshTuple (n.natAbs % 4), used)
+  | .arr [.str "tl", .arr vs] =>
+    -- a typed list is constructed from fresh instances of C0
+    let (items, used') := vs.foldl (fun (acc : List (Key × VE) × Used) v =>
+      let r := resolveVE cx acc.2 v
+      let e := match r.1 with
+        | .node (.obj 0) s a p its => VE.node (.obj 0) s a p (its.map fun kv => (kv.1, plainOnly kv.2))
+        | _ => VE.node (.obj 0) false true false []
+      (acc.1 ++ [(Key.i acc.1.length, e)], r.2)) ([], used)
+    (.typedList items, used')
   | .arr [.str "I"] => (.node (.obj clsInferred) false false false [], used)
   | .arr [.str "R"] => (.mkRef none, used)
   | .arr [.str "R", .int n] =>
@@ -130,7 +157,9 @@ partial def resolveVE (cx : Ctx) (used : Used) : J → VE × Used
       let selfRef := match m.kind, m.ref with
         | .obj 2, some tg => sameRoot cx tg
         | _, _ => false
-      if used.contains m.id || ((diverges || selfRef) && !cx.unsafeRefs) then (.atom .none, used)
+      -- (a spec-bound list is not offered by itself: an object field that receives it rewrites the
+      -- offered list's allow_partial before the copy is made — F121, outside the model)
+      if used.contains m.id || m.typed || ((diverges || selfRef) && !cx.unsafeRefs) then (.atom .none, used)
       -- a parentless node will be moved: its whole subtree is then out of reach for this call
       else if m.parent.isNone then (.ref m.id, (Tree.node m its).ids ++ used)
       else (.ref m.id, m.id :: used)
@@ -191,6 +220,17 @@ def holdsInferred (cont : Tree) (k : Key) : Bool :=
   | some (.node m _) => m.kind == .obj clsInferred
   | _ => false
 
+/-- what survives `pg.from_json(pg.to_json(v))`: plain values and containers with default flags. -/
+partial def sanitizeVE : VE → VE
+  | .atom (.int i) => .atom (.int i)
+  | .atom (.str n) => .atom (.str n)
+  | .typedList items => VE.node .list false true false (items.map fun kv => (kv.1, sanitizeVE kv.2))
+  | .node kind _ _ _ items =>
+    (match kind with
+     | .obj c => if c < 2 then VE.node kind false true false (items.map fun kv => (kv.1, sanitizeVE kv.2)) else .atom .none
+     | _ => VE.node kind false true false (items.map fun kv => (kv.1, sanitizeVE kv.2)))
+  | _ => .atom .none
+
 def resolveOp (f : Forest) (j : J) : Option Op :=
   let nodes := f.nodes
   let name := (j.getStr? "op").getD ""
@@ -200,12 +240,14 @@ def resolveOp (f : Forest) (j : J) : Option Op :=
     | "lset" | "ldel" | "lappend" | "linsert" | "lextend" | "liadd" | "lpop" | "lremove" | "lclear"
     | "lsort" | "lreverse" | "limul" | "lslice" | "ldelslice" => "l"
     | "oset" => "o"
+    | "tlset" | "tlappend" | "tlins" | "tldel" | "tlpop" => "tl"
     | _ => "*"
-  let target := if name == "new" then none else pickOfKind nodes fam tn
+  let target := if name == "new" || name == "newjson" then none else pickOfKind nodes fam tn
   let cx : Ctx := { f := f, nodes := nodes, target := target, unsafeRefs := (j.getBool? "unsafe").getD false }
   let v := fun (field : String) => (resolveVE cx [] (j.getD field .null)).1
   let vs := fun (field : String) => (resolveVEs cx [] ((j.getArr? field).getD [])).1
   if name == "new" then some (.new (v "v")) else
+  if name == "newjson" then some (.new (sanitizeVE (v "v"))) else
   match target with
   | none => none
   | some tt =>
@@ -213,9 +255,14 @@ def resolveOp (f : Forest) (j : J) : Option Op :=
     let len : Int := tt.items.length
     match name with
     | "clone" => some (.clone t ((j.getBool? "deep").getD false))
+    | "tlset" => some (.setItem t (resolveKey target (j.getD "key" .null)) (forTyped f (v "v")))
+    | "tlappend" => some (.lAppend t (forTyped f (v "v")))
+    | "tlins" => some (.lInsert t (resolveIdx target (j.getD "key" .null)) (forTyped f (v "v")))
+    | "tldel" => some (.delItem t (resolveKey target (j.getD "key" .null)))
+    | "tlpop" => some (.lPop t (resolveIdx target (j.getD "key" .null)))
     | "dset" | "lset" => some (.setItem t (resolveKey target (j.getD "key" .null)) (v "v"))
     | "oset" =>
-      let cls := match tt.meta? with | some ⟨_, _, _, .obj c, _, _, _, _⟩ => c | _ => 0
+      let cls := match tt.meta?.map (·.kind) with | some (.obj c) => c | _ => 0
       some (.setItem t (Key.s (natOf (j.getD "key" (.int 0)) % (cls + 2))) (v "v"))
     | "ddel" | "ldel" => some (.delItem t (resolveKey target (j.getD "key" .null)))
     | "lappend" => some (.lAppend t (v "v"))
@@ -279,6 +326,9 @@ def resolveOp (f : Forest) (j : J) : Option Op :=
             | _ => none
           -- an Insertion only means something where the written container is a list
           let ins := ins && (match dest with | some pm => pm.kind == .list | none => false)
+          let r := match dest with
+            | some pm => if pm.typed then (forTyped f r.1, r.2) else r
+            | none => r
           let destId := match dest with | some pm => pm.id | none => t
           (acc.1 ++ [(path, ins, if ins then dropOwn f cx destId r.1 else r.1)], r.2)
         | _ => acc) ([], [])
@@ -313,6 +363,10 @@ def runHistory (cfg : Cfg) (ops : List J) : List J :=
       match resolveOp f j with
       | none => go f rest (J.obj [("out", .str "skip"), ("dump", forestToJ f), ("wf", .bool f.wf)] :: acc)
       | some op =>
+        -- a clone may run inside `with pg.allow_partial(True)`
+        let cfg := match (j.get? "scope").bind (fun sc => sc.getBool? "partial") with
+          | some b => if (j.getStr? "op") == some "clone" then { cfg with scopePartial := some b } else cfg
+          | none => cfg
         let r := stepA cfg f notifyOn op
         let rec' := J.obj [("out", outcomeToJ r.out), ("dump", forestToJ r.forest),
                            ("wf", .bool r.forest.wf), ("aliased", .bool r.forest.aliased), ("adm", .bool (Admissible cfg f notifyOn op)),
